@@ -1413,9 +1413,8 @@ Proof.
   intros I F. unfold do_transmit in F.
   destruct (tx_loop _ maxb 0 s []) as [[[s1 buf] fs] okf] eqn:T.
   pose proof (tx_loop_sc _ _ _ _ _ _ _ _ _ T) as S1.
-  destruct okf; injection F as <- _.
-  - eapply sc_inv; [exact I|]. eapply sc_trans; [exact S1|sc_core_eq].
-  - eapply sc_inv; eassumption.
+  injection F as <- _.
+  eapply sc_inv; [exact I|]. eapply sc_trans; [exact S1|sc_core_eq].
 Qed.
 
 Lemma accept_inv s g d s' r : Inv s g -> do_accept d s = Some (s', r) -> Inv s' g.
